@@ -482,6 +482,10 @@ def run(ctx, res):
 
 
 def replay(ctx, data):
+    if "left" not in data:
+        # a broken-tie replay (no failing input): re-run the audit of the theorem file
+        import common
+        return bool(common.property_audit(ctx.prop)[4])
     lp, rp = data["left"], data["right"]
     sig = data.get("sig", "")
     name = sig.split(":")[1] if ":" in sig else ""
